@@ -105,7 +105,7 @@ def main():
         "setup_cmd": "./check --setup",
         "hooks": {
             "guard": "verif",
-            "enable": "every check builds /repo with `go build -tags verif` (see ./check); hooks: lock-event recorder in server/backend/sync, Background/Backend.WaitIdle",
+            "enable": "every check builds /repo with `go build -tags verif` (see ./check); hooks: lock-event recorder in server/backend/sync (verif_hook.go / verif_hook_off.go), Background/Backend.WaitIdle, read-only accessor VerifVersionVectors on the memory DB; known findings and fixed defects are listed in known_findings.json, pinned witnesses under known/",
             "baseline_off_cmd": "cd /repo && go build ./... && go test -vet=off -count=1 -timeout 25m ./...",
             "source_commits": HOOK_COMMITS,
             "add_only": True,
@@ -114,7 +114,7 @@ def main():
                      "kind_free_text": "Go harness: parent forks worker processes, each runs a real in-process yorkie server on memdb and drives generated/enumerated cases; monitors and offline checkers decide; writes evidence/<id>.json"}],
         "checks": checks,
         "not_applicable": na,
-        "notes": "All checks are runtime monitors over executions of the real code (see DESIGN.md). Exit 0 = held on everything explored (KNOWN-FINDING lines allowed), 1 = VIOLATION, 2 = harness fault / observation floor missed (inconclusive).",
+        "notes": "Known findings: known_findings.json (kind=finding: recorded, with pinned witness replays under known/; kind=fixed: repaired by the named fix: commit in /repo, suppresses nothing). All checks are runtime monitors over executions of the real code (see DESIGN.md). Exit 0 = held on everything explored (KNOWN-FINDING lines allowed), 1 = VIOLATION, 2 = harness fault / observation floor missed (inconclusive).",
     }
     json.dump(m, open("/verif/MANIFEST.json", "w"), indent=1)
     print("MANIFEST.json written:", len(checks), "checks,", len(na), "not claimed")
